@@ -11,6 +11,7 @@
   (292 fonts, 14 mappings) and lifted to all characters by [P] lemmas.
 -/
 import EG.Lemmas.FontTables
+import EG.Lemmas.FontText
 namespace EG.C14
 open EG EG.Font EG.Generated
 
@@ -96,5 +97,195 @@ designated glyph lies completely inside the font image. -/
 theorem builtin_cells_inside (r : FontRec) (hr : r ∈ fontTable) (c : Nat) :
     (fontOfRec r).areaDrawable ((fontOfRec r).glyphArea c) = true :=
   builtin_glyph_drawable r hr c
+
+/-- Characters missing from the mapping render the replacement glyph: their cell is the cell of the
+replacement index (for every mapping string and font geometry). -/
+theorem unmapped_renders_replacement (f : MonoFont) (m : StrMapping) (hf : f.index = m.index) (c : Nat)
+    (h : c ∉ expand m.data) : f.glyphArea c = f.glyphAreaOfIndex m.replacement := by
+  unfold MonoFont.glyphArea; rw [hf, index_of_not_mem m c h]
+
+example : (27 : Nat) ∉ expand [0, 32, 127] := by decide
+
+/-! ### Layout ([P], every font, string, spacing, position) -/
+
+/-- `line_elements`: item `2i` is the `i`-th character at x offset `i * (cw + spacing)`, item `2i+1`
+the spacing element directly after that cell (not after the last character), and `Done` sits at the
+end of the last cell: text width `n*cw + (n-1)*spacing` (this is the position `draw_string` returns). -/
+theorem line_elements_pos (f : MonoFont) (pos : Pt) (text : List Nat) :
+    (∀ i (h : i < text.length), (lineElements f pos text)[2 * i]? =
+        some (⟨pos.x + ((i * (f.cw + f.spacing) : Nat) : Int), pos.y⟩, .char text[i])) ∧
+    (∀ i, i + 1 < text.length → (lineElements f pos text)[2 * i + 1]? =
+        some (⟨pos.x + ((i * (f.cw + f.spacing) : Nat) : Int) + (f.cw : Int), pos.y⟩, .spacing)) ∧
+    (lineElements f pos text).length = (if text.length = 0 then 1 else 2 * text.length) ∧
+    (lineElements f pos text).find? (fun e => e.2 == Elem.done) =
+        some (⟨pos.x + (textWidth f text.length : Int), pos.y⟩, .done) := by
+  rw [lineElements_eq_lineSpec]
+  refine ⟨fun i h => lineSpec_char f text pos i h, fun i h => lineSpec_spacing f text pos i h,
+    lineSpec_length f text pos, ?_⟩
+  rw [lineSpec_done]
+  have := endPos_x f pos text.length
+  congr 2
+  rw [Pt.ext_iff']
+  exact this
+
+/-! ### Pixels ([P]) -/
+
+/-- One glyph, any colour variant: drawing the cell `a` of the atlas at `p` writes, for every pixel
+`(dx, dy)` of the cell in row-major order, `p + (dx, dy)` with the text colour if the atlas bit is on
+and the background colour if it is off — and nothing where the variant has no such colour. -/
+theorem glyph_call_writes (B : Rect) (m : Mode) (atlas : Pt → Bool) (p : Pt) (a : Rect)
+    (h : (⟨p, a.size⟩ : Rect).InRange) :
+    (m.lower (BCall.fillContiguous ⟨p, a.size⟩ (cellBits atlas a))).flatMap (Call.lowerDefault B) =
+      cellWrites m atlas p a :=
+  glyph_lowerDefault B m atlas p a h
+
+example : (⟨⟨-3, 7⟩, (⟨⟨8, 16⟩, ⟨4, 6⟩⟩ : Rect).size⟩ : Rect).InRange := by decide
+
+/-- The draw_iter-only target and the native-fill target end with the same pixel map, for every
+call list (so everything below holds for both). -/
+theorem r1_eq_r2 (B : Rect) (calls : List Call) : runDefault B calls = runNative B calls :=
+  runDefault_eq_runNative B calls
+
+section DrawnString
+variable (B : Rect) (f : MonoFont) (atlas : Pt → Bool) (st : Style) (m : Mode) (hm : st.mode = some m)
+  (text : List Nat) (position : Pt) (bl : Baseline)
+  (hd : ∀ c ∈ text, f.areaDrawable (f.glyphArea c) = true)
+  (hr : TextInRange f ⟨position.x, position.y - f.baselineOffset bl⟩ text.length)
+  (hdr : DecoInRange f ⟨position.x, position.y - f.baselineOffset bl⟩ (textWidth f text.length))
+include hm hd hr hdr
+
+/-- **glyph_cell_pixels.** In the final pixel map of `draw_string`, pixel `(dx, dy)` of the cell of the
+`i`-th character `c` — at x offset `i * (cw + spacing)`, y = position minus the baseline offset — is what
+the colour rule makes of the atlas bit `(dx, dy)` of the glyph cell designated for `c`: on -> text colour,
+off -> background colour, `none` (untouched) when that colour is not set; wherever no drawn decoration
+covers the pixel. (For an unmapped `c` the designated cell is the replacement glyph's.) -/
+theorem glyph_cell_pixels (i c dx dy : Nat) (hi : text[i]? = some c) (hdx : dx < f.cw) (hdy : dy < f.ch)
+    (hB : B.contains ⟨position.x + ((i * (f.cw + f.spacing) : Nat) : Int) + (dx : Int),
+                      position.y - f.baselineOffset bl + (dy : Int)⟩ = true)
+    (hnd : NotDecorated f st (textWidth f text.length) ⟨position.x, position.y - f.baselineOffset bl⟩
+            ⟨position.x + ((i * (f.cw + f.spacing) : Nat) : Int) + (dx : Int),
+             position.y - f.baselineOffset bl + (dy : Int)⟩) :
+    runDefault B (f.drawString atlas st text position bl).1
+        ⟨position.x + ((i * (f.cw + f.spacing) : Nat) : Int) + (dx : Int),
+         position.y - f.baselineOffset bl + (dy : Int)⟩ =
+      m.colourOf (atlas ⟨(f.glyphArea c).tl.x + (dx : Int), (f.glyphArea c).tl.y + (dy : Int)⟩) := by
+  have hnd' := not_mem_decoWrites _ _ _ _ _ hnd
+  cases hc : m.colourOf (atlas ⟨(f.glyphArea c).tl.x + (dx : Int), (f.glyphArea c).tl.y + (dy : Int)⟩) with
+  | some col =>
+    exact text_pixel_map B f atlas st m hm text position bl hd hr hdr _ col hB
+      (Or.inl ⟨i, c, hi, dy, hdy, dx, hdx, rfl, hc⟩) hnd'
+  | none =>
+    apply untouched_pixel_map B f atlas st m hm text position bl hd hr hdr _ _ hnd'
+    intro col h
+    have := cell_pixel_unique f atlas m ⟨position.x, position.y - f.baselineOffset bl⟩ text i c dx dy hi hdx col h
+    rw [hc] at this; cases this
+
+/-- **Spacing.** The `spacing` columns after every character but the last get the background colour if
+one is set and are otherwise untouched. -/
+theorem spacing_pixels (i dx dy : Nat) (hi : i + 1 < text.length) (hdx : dx < f.spacing) (hdy : dy < f.ch)
+    (hB : B.contains ⟨position.x + ((i * (f.cw + f.spacing) : Nat) : Int) + (f.cw : Int) + (dx : Int),
+                      position.y - f.baselineOffset bl + (dy : Int)⟩ = true)
+    (hnd : NotDecorated f st (textWidth f text.length) ⟨position.x, position.y - f.baselineOffset bl⟩
+            ⟨position.x + ((i * (f.cw + f.spacing) : Nat) : Int) + (f.cw : Int) + (dx : Int),
+             position.y - f.baselineOffset bl + (dy : Int)⟩) :
+    runDefault B (f.drawString atlas st text position bl).1
+        ⟨position.x + ((i * (f.cw + f.spacing) : Nat) : Int) + (f.cw : Int) + (dx : Int),
+         position.y - f.baselineOffset bl + (dy : Int)⟩ = m.bgColour := by
+  have hnd' := not_mem_decoWrites _ _ _ _ _ hnd
+  cases hc : m.bgColour with
+  | some col =>
+    exact text_pixel_map B f atlas st m hm text position bl hd hr hdr _ col hB
+      (Or.inr ⟨i, hi, dy, hdy, dx, hdx, rfl, hc⟩) hnd'
+  | none =>
+    apply untouched_pixel_map B f atlas st m hm text position bl hd hr hdr _ _ hnd'
+    intro col h
+    have := gap_pixel_unique f atlas m ⟨position.x, position.y - f.baselineOffset bl⟩ text i dx dy hdx col h
+    rw [hc] at this; cases this
+
+/-- Nothing outside the box `text width x character height` is touched, except by decorations. -/
+theorem outside_untouched (q : Pt)
+    (h : q.y < position.y - f.baselineOffset bl ∨ position.y - f.baselineOffset bl + (f.ch : Int) ≤ q.y ∨
+         q.x < position.x ∨ position.x + (textWidth f text.length : Int) ≤ q.x)
+    (hnd : NotDecorated f st (textWidth f text.length) ⟨position.x, position.y - f.baselineOffset bl⟩ q) :
+    runDefault B (f.drawString atlas st text position bl).1 q = none :=
+  untouched_pixel_map B f atlas st m hm text position bl hd hr hdr q
+    (fun col => outside_not_in_text f atlas m _ text q h col) (not_mem_decoWrites _ _ _ _ _ hnd)
+
+/-- **decorations_cover (underline).** Every pixel of the rectangle (text width) x (underline height) at
+the font's underline offset has the underline colour in the final map. -/
+theorem underline_covers (c : Color) (hu : st.underline.effective st.textColor = some c)
+    (hw : 0 < textWidth f text.length) (q : Pt) (hB : B.contains q = true)
+    (hq : (decoRect f.ulOff f.ulH ⟨position.x, position.y - f.baselineOffset bl⟩ (textWidth f text.length)).contains q = true) :
+    runDefault B (f.drawString atlas st text position bl).1 q = some c :=
+  underline_pixel_map B f atlas st m hm text position bl hd hr hdr c hu hw q hB hq
+
+/-- **decorations_cover (strikethrough).** Likewise at the strikethrough offset (where the underline, drawn
+after it, does not cover the same pixel). -/
+theorem strikethrough_covers (c : Color) (hst : st.strikethrough.effective st.textColor = some c)
+    (hw : 0 < textWidth f text.length) (q : Pt) (hB : B.contains q = true)
+    (hq : (decoRect f.stOff f.stH ⟨position.x, position.y - f.baselineOffset bl⟩ (textWidth f text.length)).contains q = true)
+    (hnu : st.underline.effective st.textColor = none ∨
+      (decoRect f.ulOff f.ulH ⟨position.x, position.y - f.baselineOffset bl⟩ (textWidth f text.length)).contains q = false) :
+    runDefault B (f.drawString atlas st text position bl).1 q = some c :=
+  strikethrough_pixel_map B f atlas st m hm text position bl hd hr hdr c hst hw q hB hq hnu
+
+end DrawnString
+
+/-! Non-vacuity: a font with spacing 1 and an atlas of 4 glyphs per row, two characters, text colour
+only, strikethrough in a custom colour, underline in the text colour, alphabetic baseline. -/
+section Example
+private def exFont : MonoFont := ⟨16, 8, 4, 4, 1, 3, 5, 1, 2, 1, fun c => c % 8⟩
+private def exStyle : Style := ⟨some 7, none, .textColor, .custom 9⟩
+private def exBox : Rect := ⟨⟨0, 0⟩, ⟨100, 100⟩⟩
+private def exAtlas : Pt → Bool := fun p => p.x % 2 == 0
+
+
+/-- second character (i = 1), cell pixel (2, 1): an on bit gets the text colour -/
+example : runDefault exBox (exFont.drawString exAtlas exStyle [5, 2] ⟨3, 20⟩ .alphabetic).1 ⟨10, 18⟩ = some 7 :=
+  glyph_cell_pixels exBox exFont exAtlas exStyle (.fg 7) (by decide) [5, 2] ⟨3, 20⟩ .alphabetic (by decide) (by decide) (by decide)
+    1 2 2 1 (by decide) (by decide) (by decide) (by decide) (by decide)
+
+/-- the gap column between the two characters stays untouched (no background colour) -/
+example : runDefault exBox (exFont.drawString exAtlas exStyle [5, 2] ⟨3, 20⟩ .alphabetic).1 ⟨7, 18⟩ = none :=
+  spacing_pixels exBox exFont exAtlas exStyle (.fg 7) (by decide) [5, 2] ⟨3, 20⟩ .alphabetic (by decide) (by decide) (by decide)
+    0 0 1 (by decide) (by decide) (by decide) (by decide) (by decide)
+
+/-- the underline (text colour) covers the last column of the text width, the strikethrough the first -/
+example : runDefault exBox (exFont.drawString exAtlas exStyle [5, 2] ⟨3, 20⟩ .alphabetic).1 ⟨11, 22⟩ = some 7 :=
+  underline_covers exBox exFont exAtlas exStyle (.fg 7) (by decide) [5, 2] ⟨3, 20⟩ .alphabetic (by decide) (by decide) (by decide)
+    7 (by decide) (by decide) ⟨11, 22⟩ (by decide) (by decide)
+example : runDefault exBox (exFont.drawString exAtlas exStyle [5, 2] ⟨3, 20⟩ .alphabetic).1 ⟨3, 19⟩ = some 9 :=
+  strikethrough_covers exBox exFont exAtlas exStyle (.fg 7) (by decide) [5, 2] ⟨3, 20⟩ .alphabetic (by decide) (by decide) (by decide)
+    9 (by decide) (by decide) ⟨3, 19⟩ (by decide) (by decide) (by decide)
+example : runDefault exBox (exFont.drawString exAtlas exStyle [5, 2] ⟨3, 20⟩ .alphabetic).1 ⟨12, 18⟩ = none :=
+  outside_untouched exBox exFont exAtlas exStyle (.fg 7) (by decide) [5, 2] ⟨3, 20⟩ .alphabetic (by decide) (by decide) (by decide)
+    ⟨12, 18⟩ (by decide) (by decide)
+end Example
+
+/-- Built-in fonts: the drawability hypothesis of the pixel theorems holds for every string. -/
+theorem builtin_text_drawable (r : FontRec) (hr : r ∈ fontTable) (text : List Nat) :
+    ∀ c ∈ text, (fontOfRec r).areaDrawable ((fontOfRec r).glyphArea c) = true :=
+  fun c _ => builtin_glyph_drawable r hr c
+
+/-- With neither text nor background colour only decorations are drawn, over `n * (cw + spacing)`
+(for the built-in fonts, whose spacing is 0, that is the text width). -/
+theorem transparent_text_only_decorations (f : MonoFont) (atlas : Pt → Bool) (st : Style) (hm : st.mode = none)
+    (text : List Nat) (position : Pt) (bl : Baseline) :
+    (f.drawString atlas st text position bl).1 =
+      if 0 < (f.cw + f.spacing) * text.length
+      then f.drawDecorations st ((f.cw + f.spacing) * text.length) ⟨position.x, position.y - f.baselineOffset bl⟩
+      else [] := by
+  rw [drawString_transparent f atlas st hm]
+
+example : (⟨none, none, .custom 3, .none⟩ : Style).mode = none := by decide
+
+theorem builtin_spacing_zero : ∀ r ∈ fontTable, FontDecoOK r := fontTable_deco_ok
+
+-- [V] the colour stream handed to `fill_contiguous` for a glyph is exactly the cell's w*h atlas bits (model: `cellBits`; the real `ContiguousPixels` is C09's topic, incl. its surplus row): carried by correspondence + oracle only
+-- [V] the atlas bitmap content itself (which bits are on in which cell of the 292 raw files) is a parameter of the theorems; the correspondence feeds the real bits read with `font.image.pixel()`: carried by correspondence + oracle only
+-- [V] `Text::draw` of a single-line, left-aligned text equals `draw_string` (multi-line / alignment is C15): carried by correspondence + oracle only
+-- [V] `draw_whitespace` (background rectangle + decorations over the given width) is modelled and compared but has no theorem: carried by correspondence + oracle only
+-- [V] ranges of a mapping string that cross the surrogate gap (none in the 14 built-in strings; `range_is_interval` excludes them): carried by correspondence + oracle only
+-- [V] `as u32` / `as i32` truncation of glyph indices and cell coordinates beyond 2^31 and i32 overflow of the running x position (theorems assume `TextInRange`): carried by correspondence + oracle only
 
 end EG.C14
